@@ -653,6 +653,15 @@ pub fn c08_gen(rng: &mut Rng, n: usize) -> Vec<Case> {
             p.stanzas.insert(b2, reader.to_string());
             if p.stanzas.len() > 5 { p.stanzas.truncate(5); }
         }
+        if rng.chance(15) {
+            // three definitions of ONE scoped name, two on the same node and one on a different node, each matching once:
+            // forcing must fail with DuplicateVariable wherever the odd one sits between the two (round 14, C08n)
+            p.stanzas.truncate(2);
+            for d in ["(module . (_) @_c1) @m1 {\n  let @m1.sv3 = 1\n}\n", "(module . (_) @c2) {\n  let @c2.sv3 = 2\n}\n", "(module . (_) @_c3) @m3 {\n  let @m3.sv3 = 3\n}\n"] {
+                let a = rng.below(p.stanzas.len() + 1);
+                p.stanzas.insert(a, d.to_string());
+            }
+        }
         if p.stanzas.len() < 2 { continue; }
         let src = if rng.chance(50) { CORPUS[rng.below(CORPUS.len())].to_string() } else { gen_source(rng) };
         let perms = permutations(p.stanzas.len(), rng, 24);
@@ -957,6 +966,13 @@ pub fn c04_input_mode(rng: &mut Rng, ordered: bool) -> ExecInput {
         st.push("(module) @mc {\n  let @mc.chn = \"root\"\n}\n".into());
         st.push("(module (function_definition) @fc) @mc2 {\n  let @fc.chn = @mc2.chn\n}\n".into());
         if rng.chance(50) { st.push("(function_definition body: (block (function_definition) @gc)) @fc2 {\n  let @gc.chn = [@fc2.chn, (start-row @gc)]\n}\n".into()); }
+    }
+    // three definitions of one name: two on the module, one on its first child (duplicates that need not be adjacent in
+    // collection order; round 14, C08n)
+    if !ordered && rng.chance(12) {
+        st.push("(module . (_) @_c1) @m1 {\n  let @m1.dup3 = 1\n}\n".into());
+        st.push("(module . (_) @c2) {\n  let @c2.dup3 = 2\n}\n".into());
+        st.push("(module . (_) @_c3) @m3 {\n  let @m3.dup3 = 3\n}\n".into());
     }
     if !ordered && rng.chance(15) { st.push("(function_definition) @again {\n  let @again.k = 99\n}\n".into()); }
     let ndefs = st.len();
